@@ -20,16 +20,16 @@ PROPS["C03"] = dict(
     theorems=["Goflow.C03Trans2.decodeField_trans_eq", "Goflow.C03Trans2.decodeTemplateSet_trans_eq", "Goflow.C03Trans2.decodeNFv9OptionsTemplateSet_trans_eq", "Goflow.C03Trans2.decodeIPFIXOptionsTemplateSet_trans_eq", "Goflow.C03Trans2.decodeDataSetUsingFields_trans_eq", "Goflow.C03Trans2.decodeDataSet_trans_eq", "Goflow.C03Trans2.decodeOptionsDataSet_trans_eq", "Goflow.C03Trans3.decodeFlowSet_trans_eq", "Goflow.C03Trans3.decodeMessageCommon_trans_eq", "Goflow.C03Trans3.decodeMessageNetFlow_trans_eq", "Goflow.C03Trans3.decodeMessageIPFIX_trans_eq", "Goflow.C03Trans3.decodeMessageVersion_trans_eq", "Goflow.RawJson.raw_json_member_names", "Goflow.RawJson.raw_json_marshalers", 'Goflow.C03Trans.getTemplateSize_eq', 'Goflow.C03.field_roundtrip', 'Goflow.C03.optionField_roundtrip', 'Goflow.C03.templateSet_roundtrip', 'Goflow.C03.optionsTemplateSet_roundtrip_v9', 'Goflow.C03.optionsTemplateSet_roundtrip_ipfix', 'Goflow.C03.record_roundtrip', 'Goflow.C03.encRecord_length_ge', 'Goflow.C03.dataSet_roundtrip', 'Goflow.C03.optionsDataSet_roundtrip', 'Goflow.C03.flowSet_roundtrip', 'Goflow.C03.messageCommon_roundtrip', 'Goflow.C03.roundtrip'],
     generators=[dict(name="C03", quick=4000, thorough=100000)],
     harness=["impl"],
-    level_text="Theorem roundtrip: decode (encode m) = m for every well-formed NetFlow v9 / IPFIX message against an RFC encoder (template store update, padding, enterprise bit, variable length), plus the differential run of the encoder's output through the Go decoder. GetTemplateSize is translated from the source and proved equal to the model's templateSize (C03Trans).",
+    level_text="Theorem roundtrip: decode (encode m) = m for every well-formed NetFlow v9 / IPFIX message against an RFC encoder (template store update, padding, enterprise bit, variable length), plus the differential run of the encoder's output through the Go decoder. The whole decoder of decoders/netflow/netflow.go is TRANSLATED from the Go source on every run and proved equal to the model for every byte string and every related template store (C03Trans, C03Trans2, C03Trans3).",
 )
 
 PROPS["C04"] = dict(
-    modules=["Proofs.C04", "Proofs.C04Roundtrip", "Proofs.C04Trans", "Proofs.RawJson"],
-    theorems=["Goflow.RawJson.raw_json_member_names", "Goflow.RawJson.raw_json_marshalers", 'Goflow.C04Trans.decodeIP_trans_eq', 'Goflow.C04.xdrString_roundtrip', 'Goflow.C04.ip_roundtrip', 'Goflow.C04.unknown_record_skipped', 'Goflow.C04.unknown_flow_record',
+    modules=["Proofs.C04", "Proofs.C04Roundtrip", "Proofs.C04Trans", "Proofs.RawJson", "Proofs.C04Trans2Map", "Proofs.C04Trans2"],
+    theorems=["Goflow.C04Trans2.decodeCounterRecord_trans_eq", "Goflow.C04Trans2.decodeFlowRecord_trans_eq", "Goflow.C04Trans2.decodeSample_trans_eq", "Goflow.C04Trans2.decodeMessage_trans_eq", "Goflow.C04Trans2.decodeMessageVersion_trans_eq", "Goflow.RawJson.raw_json_member_names", "Goflow.RawJson.raw_json_marshalers", 'Goflow.C04Trans.decodeIP_trans_eq', 'Goflow.C04.xdrString_roundtrip', 'Goflow.C04.ip_roundtrip', 'Goflow.C04.unknown_record_skipped', 'Goflow.C04.unknown_flow_record',
               'Goflow.C04.flowRecord_roundtrip', 'Goflow.C04.counterRecord_roundtrip', 'Goflow.C04.sample_roundtrip', 'Goflow.C04.roundtrip', 'Goflow.C04.exampleDatagram_wf'],
     generators=[dict(name="C04", quick=4000, thorough=150000)],
     harness=["impl"],
-    level_text="Theorem roundtrip: decodeMessageVersion (encode d) = ok (expected d) for every well-formed sFlow v5 datagram (all five sample kinds, eleven flow record kinds, counter records), plus the differential run against the Go decoder. DecodeIP is translated from the source and proved equal to the model (C04Trans); the sample and record decoders are hand-written, tied by the differential run.",
+    level_text="Theorem roundtrip: decodeMessageVersion (encode d) = ok (expected d) for every well-formed sFlow v5 datagram (all five sample kinds, eleven flow record kinds, counter records), plus the differential run against the Go decoder. The whole decoder (DecodeIP, DecodeCounterRecord, DecodeFlowRecord, DecodeSample, DecodeMessage, DecodeMessageVersion) is TRANSLATED from the Go source on every run and proved equal to the model for every byte string (C04Trans, C04Trans2); BinaryRead's string / []uint32 paths are restated as prelude primitives.",
 )
 
 PROPS["C07"] = dict(
